@@ -243,6 +243,18 @@ def inj_self_ref_file(files, cfg, level):
     lvl(cfg, level)["filename"] = "{{.StructName}}.go"
 
 
+def inj_self_ref_noop(files, cfg, level):
+    # under the noop formatter nothing downstream can reject the file: only the detection of the cycle itself makes the run fail
+    lvl(cfg, level)["structname"] = "{{.StructName}}Z"
+    lvl(cfg, level)["formatter"] = "noop"
+
+
+def inj_self_ref_pkgname_noop(files, cfg, level):
+    lvl(cfg, level)["pkgname"] = "p{{.PkgName}}" if False else "q{{.SrcPackageName}}{{.StructName}}"
+    lvl(cfg, level)["structname"] = "S{{.StructName}}"
+    lvl(cfg, level)["formatter"] = "noop"
+
+
 def inj_tmpl_syntax(files, cfg, level):
     lvl(cfg, level)["dir"] = "out/{{ .InterfaceName "
 
@@ -313,6 +325,8 @@ INVALID = {
     "schema-required-key-empty-template-data": (["root", "pkg", "iface"], inj_required_key_empty_data),
     "cyclic-templated-value": (ALL_LEVELS, inj_self_ref),
     "cyclic-templated-value-via-filename": (ALL_LEVELS, inj_self_ref_file),
+    "cyclic-templated-value-noop-formatter": (ALL_LEVELS, inj_self_ref_noop),
+    "cyclic-templated-value-two-keys-noop-formatter": (["root", "iface"], inj_self_ref_pkgname_noop),
     "templated-value-syntax-error": (ALL_LEVELS, inj_tmpl_syntax),
     "templated-value-exec-error": (ALL_LEVELS, inj_tmpl_exec),
     "templated-value-div-zero": (["root", "cfg"], inj_tmpl_divzero),
